@@ -305,6 +305,18 @@ def render_real_out(out: list[Token], ids: dict) -> str:
     return body + "|term=" + (terms[0].value.name if terms and pos_ok else ("-" if not terms else "MISPLACED"))
 
 
+def canon_prov(rendered: str) -> list:
+    """`key<-S[a,b];…` -> [(key, kind, sorted elements)]"""
+    if rendered == "-":
+        return []
+    out = []
+    for part in rendered.split(";"):
+        head, body = part.split("[", 1)
+        key, kind = head.split("<-")
+        out.append((key, kind, tuple(sorted(x for x in body.rstrip("]").split(",") if x))))
+    return out
+
+
 def canon_sets(rendered: str) -> tuple:
     body, term = rendered.split("|term=")
     return tuple(sorted(body.split(";"))), term
@@ -370,6 +382,9 @@ class C01(Property):
         for g, (real, how, case) in zip(got, self._expect):
             if how == "exact":
                 same = g == real
+            elif how in ("prov", "provset"):   # element order inside a provenance set is not observable in the database
+                cg, cr = canon_prov(g), canon_prov(real)
+                same = cg == cr if how == "prov" else sorted(cg) == sorted(cr)
             else:   # the arrival order was chosen by the event loop: same lists per key, same termination
                 same = canon_sets(g) == canon_sets(real)
             if not same:
@@ -474,8 +489,23 @@ class C01(Property):
         ids: dict = {}
         line = lean_gather_line(depth, events, ids)
         exp = (render_real_out(out, ids), "exact" if imposed else "sets", dict(case, stage=stage, line=line))
+        # provenance recorded in the database for every emitted list token: the size token of its key + its element tokens
+        by_pid = {t.persistent_id: f"{t.tag}:{ids[id(t)]}" for k, t in events if k == "e" and id(t) in ids}
+        size_pids = {t.persistent_id for k, t in events if k == "s"}
+        provs = []
+        for t in out:
+            if isinstance(t, TerminationToken):
+                continue
+            deps = [r["dependee"] for r in await rig.context.database.get_dependees(t.persistent_id)]
+            els = sorted(by_pid[d] for d in deps if d in by_pid)
+            others = [d for d in deps if d not in by_pid]
+            kind = "S" if len(others) == 1 and others[0] in size_pids else "F" if len(others) == 1 else f"?{len(others)}"
+            provs.append(f"{t.tag}<-{kind}[{','.join(els)}]")
+        pexp = (";".join(provs) or "-", "prov" if imposed else "provset", dict(case, stage=stage + ":provenance", line=line))
         self._lines.append(line)       # (line, expectation) are appended together: a crash in between must not misalign them
         self._expect.append(exp)
+        self._lines.append("gatherprov" + line[len("gather"):])
+        self._expect.append(pexp)
         return out
 
     async def _run_case(self, ctx: Ctx, rig: Rig, case: dict) -> None:
@@ -769,7 +799,9 @@ class C01(Property):
         got = ctx.lean("Drivers/C01.lean", self._lines)
         for ln, g, (real, how, c) in zip(self._lines, got, self._expect):
             print(f"{c.get('stage')}: {ln[:400]}\n   real : {real[:600]}\n   model: {g[:600]}")
-            if (g != real) if how == "exact" else (canon_sets(g) != canon_sets(real)):
+            bad = (g != real) if how == "exact" else (canon_prov(g) != canon_prov(real)) if how == "prov" else \
+                (sorted(canon_prov(g)) != sorted(canon_prov(real))) if how == "provset" else (canon_sets(g) != canon_sets(real))
+            if bad:
                 ctx.disagree("model vs code", f"code {real!r}, model {g!r}", c)
 
 
